@@ -16,6 +16,7 @@ Modelled rather than verified / outside the quantifier:
   it — no serde name holds a character beyond the basic plane, so `from_str` answers the same); the harness
   sends escaped spellings of names and near-names.
 -/
+import Compass.Gen.Decisions
 import Compass.Proofs.Num
 import Compass.Model.Units
 import Mathlib.Data.Fintype.OfMap
@@ -667,6 +668,37 @@ example : createTime (0 : ℚ) .milesPerHour (30 : ℚ) .miles .minutes = none :
 example : createSpeed (0 : ℚ) .hours (1 : ℚ) .miles .milesPerHour = none := by decide +kernel
 example : (createSpeed (2 : ℚ) .hours (1 : ℚ) .miles .milesPerHour).isSome = true := by decide +kernel
 example : (DistanceUnit.miles.convert .meters (2 : ℚ)) ≠ 2 := by decide +kernel
+
+end C09
+end Compass
+
+namespace Compass
+namespace C09
+open Src
+
+/-! ### Source decision ties
+
+The relational operators at the named comparison sites of the Rust source are re-extracted on every run
+by `tools/gen_model.py` into `Compass/Gen/Decisions.lean` (`Src.<site> : Src.Rel`).  Each theorem below
+says that the hand-written model decides at that site by exactly the operator the source has there
+(`Rel.nat` / `Rel.int` / `Rel.num` interpret the extracted operator; an unrecognised line is `none`).  A
+source change that turns `<` into `<=`, `>` into `>=`, … at a site changes the generated constant and this
+proof obligation stops checking, whether or not a generated case lands on the tie. -/
+
+theorem src_create_time {α : Type} [Field α] [LinearOrder α] [IsStrictOrderedRing α] [Lit α] [LawfulLit α] (speed : α) (su : SpeedUnit) (distance : α) (du : DistanceUnit) (tu : TimeUnit) :
+    some (createTime speed su distance du tu) =
+      (create_time_speed.num (su.convert baseSpeedUnit speed) (zero : α)).bind fun bs =>
+      (create_time_distance.num (du.convert baseDistanceUnit distance) (zero : α)).map fun bd =>
+        if bs || bd then none
+        else some (baseTimeUnit.convert tu (du.convert baseDistanceUnit distance / su.convert baseSpeedUnit speed)) := by
+  simp [createTime, create_time_speed, create_time_distance, Rel.num]
+
+theorem src_create_speed {α : Type} [Field α] [LinearOrder α] [IsStrictOrderedRing α] [Lit α] [LawfulLit α] (time : α) (tu : TimeUnit) (distance : α) (du : DistanceUnit) (su : SpeedUnit) :
+    some (createSpeed time tu distance du su) =
+      (create_speed_time.num (tu.convert baseTimeUnit time) (zero : α)).map fun bt =>
+        if bt then none
+        else some (baseSpeedUnit.convert su (du.convert baseDistanceUnit distance / tu.convert baseTimeUnit time)) := by
+  simp [createSpeed, create_speed_time, Rel.num]
 
 end C09
 end Compass
